@@ -10,6 +10,9 @@ HERE = os.path.dirname(os.path.dirname(os.path.abspath(__file__)))
 BEGIN, END = '<!-- SEEDED-BEGIN -->', '<!-- SEEDED-END -->'
 
 OUT_OF_SCOPE = {
+    'C17-12': 'not a violation of the statement: INT stays value-correct for every input, only the TYPE of a whole result follows the '
+              'argument (3.0 stays a float, TRUE a logical); the difference shows where CONCATENATE / LEN spell a whole float with '
+              '".0", which no statement covers (under & a whole float joins as its digits since the whole-float repair)',
     'C04-9': 'not a violation of C04 (nor of C06): it makes whole-number floats of 1e15 and more join under & as their digits '
              'instead of Python\'s float spelling - which is what C06 asks for ("integers as their digits"); the bound of 1e15 in '
              'the repaired library was arbitrary and has since been moved to 2^53, beyond which nothing is demanded',
